@@ -60,7 +60,10 @@ SAMPLER_KW = {
 
 def build_scenario(seed, sampler, flow, xp, route="ctor", api="aspire", rng_kind=None):
     rng = rng_from(seed)
-    t = make_target(pick(rng, ["gauss_box", "hug", "periodic"]), int(pick(rng, [1, 2])), rng)
+    kind, d = pick(rng, ["gauss_box", "hug", "periodic"]), int(pick(rng, [1, 2]))
+    if flow != "simflow" and int(seed) % 2:
+        d = 3  # real flows also in 3 dimensions (flowjax then carries key-dependent permutation layers)
+    t = make_target(kind, d, rng)
     fl, fit = copy.deepcopy(FLOWS[flow])
     if "seed" in fl:
         fl["seed"] = int(rng.integers(1 << 30))
